@@ -259,6 +259,24 @@ def run(rep):
     explain(rep, pending, devs)
 
 
+def selftest():
+    """Non-vacuity: with a deviation clause switched on TLC must report one of the invariants violated."""
+    bad = 0
+    for dev, invs in DEV_BREAKS.items():
+        univ, names = ("mfg", "A") if dev == "QualifiedNameOneDot" else ("mf", "AB")
+        r = tlc.model_check("MC_Imports", cfg="MC_Imports_Gen.cfg", workers=1,
+                            env=_env(univ, names, "2", dev, "0", "1", "", 0, 1))
+        ok = r.violated in invs.split("|")
+        print(f"Dev={{{dev}}} on universe {univ}/{names}: TLC reports {r.violated or r.error or 'no violation'}"
+              f" -> {'ok' if ok else 'UNEXPECTED'}")
+        bad += not ok
+    r = tlc.model_check("MC_Imports", cfg="MC_Imports_Resolved.cfg", workers=1,
+                        env=_env("mfg", "A", "2", "ResolveWhenFileEnds", "0", "1", "", 0, 1))
+    print(f"Dev={{ResolveWhenFileEnds}} with only ResolvedAsDocumented/OneClassSet checked: {r.violated}")
+    bad += r.violated != "ResolvedAsDocumented"
+    return 1 if bad else 0
+
+
 def replay(path):
     with open(path) as f:
         rec = json.load(f)
